@@ -5,6 +5,7 @@ package main
 
 import (
 	"fmt"
+	"os"
 	"go/constant"
 	"go/token"
 	"go/types"
@@ -13,6 +14,8 @@ import (
 
 	"golang.org/x/tools/go/ssa"
 )
+
+var traceFn = os.Getenv("GOSX_TRACE")
 
 func stackTrace() string { return string(debug.Stack()) }
 
@@ -178,6 +181,13 @@ func (fr *frame) runBlocks() {
 			x.res.Instrs++
 			if x.res.Instrs > x.instrBudget {
 				x.end("unwind", fmt.Sprintf("instruction budget %d exceeded in %s", x.instrBudget, fr.fn))
+			}
+			if traceFn != "" && strings.Contains(fr.fn.String(), traceFn) {
+				fmt.Printf("TRACE %s: %s", fr.fn.Name(), b.Instrs[i])
+				if v, ok := b.Instrs[i].(ssa.Value); ok {
+					defer func(v ssa.Value) {}(v)
+				}
+				fmt.Println()
 			}
 			switch fr.visit(b.Instrs[i]) {
 			case kReturn:
@@ -506,7 +516,7 @@ func (x *Exec) store(addr Value, v Value) {
 		if p == nil {
 			x.goPanic("runtime error: invalid memory address or nil pointer dereference")
 		}
-		*p = copyVal(v)
+		assignInPlace(p, v)
 	case *SymPtr:
 		for i := range p.arr {
 			p.arr[i] = x.iteValue(x.tc.Eq(p.idx, x.tc.Const(64, uint64(i))), v, p.arr[i])
@@ -514,6 +524,28 @@ func (x *Exec) store(addr Value, v Value) {
 	default:
 		panic(fmt.Sprintf("store to %T", addr))
 	}
+}
+
+// assignInPlace stores v into the slot, keeping the identity of aggregate
+// cells (pointers to fields and elements taken earlier stay valid).
+func assignInPlace(dst *Value, v Value) {
+	switch nv := v.(type) {
+	case Struct:
+		if old, ok := (*dst).(Struct); ok && len(old) == len(nv) {
+			for i := range nv {
+				assignInPlace(&old[i], nv[i])
+			}
+			return
+		}
+	case Array:
+		if old, ok := (*dst).(Array); ok && len(old) == len(nv) {
+			for i := range nv {
+				assignInPlace(&old[i], nv[i])
+			}
+			return
+		}
+	}
+	*dst = copyVal(v)
 }
 
 // boundsCheck forks on idx in [0,n); the failing side panics.
